@@ -20,6 +20,7 @@ CONSTANTS
   SMIN = 3
   SMAX = 9
   XSKIP = FALSE
+  CLRWAIT = TRUE
 CONSTRAINT Report
 INVARIANT TraceInv
 CHECK_DEADLOCK FALSE
